@@ -560,3 +560,31 @@ Proof.
     simpl in Hx, Ha. inversion Hx; subst q. inversion Ha as [E]. unfold SORT_PARAM_METAVAR in E.
     apply index_of_lt in Ex. lia.
 Qed.
+
+(** no duplicate axiom ([add_axiom]'s membership test) *)
+Lemma add_axiom_nodup : forall l a, NoDup l -> NoDup (add_axiom l a).
+Proof.
+  intros l a ND. unfold add_axiom. destruct (pmem a l) eqn:E; [exact ND|].
+  assert (Hn : ~ In a l). { intros Hin. apply pmem_In in Hin. congruence. }
+  clear E. induction l as [|b t IH]; simpl; [constructor; [intros []|constructor]|].
+  inversion ND as [|? ? Hb ND']; subst. constructor.
+  - intros Hin. apply in_app_or in Hin. destruct Hin as [Hin|[->|[]]]; [contradiction|]. apply Hn. left. reflexivity.
+  - apply IH; [exact ND'|]. intros Hin. apply Hn. right. exact Hin.
+Qed.
+
+Lemma add_axioms_nodup : forall az l, NoDup l -> NoDup (add_axioms l az).
+Proof.
+  unfold add_axioms. induction az as [|a t IH]; intros l ND; simpl; [exact ND|]. apply IH. apply add_axiom_nodup. exact ND.
+Qed.
+
+Theorem source_axioms_nodup : forall S x rule d x' pf,
+  NoDup (x_axioms x) -> gen_rewrite_event S x rule d = Some (x', pf) -> NoDup (x_axioms x').
+Proof.
+  intros S [c a cl pr] rule d x' pf ND H.
+  change (mkX c a cl pr) with (absx (mkSt c (mkMod a cl pr))) in H. rewrite agree_rewrite_event in H.
+  destruct (rewrite_event guards_sound S (mkSt c (mkMod a cl pr)) (r_pat rule) d) as [st'|] eqn:E; [|discriminate].
+  simpl in H. inversion H; subst. unfold rewrite_event in E.
+  destruct (match_rewrites _) as [[[s l] r]|]; [|discriminate]. destruct (kpat_eqb _ _); [|discriminate].
+  destruct (functional_axioms S d) as [fas|]; [|discriminate]. simpl in E. inversion E; subst. simpl.
+  apply add_axiom_nodup. apply add_axioms_nodup. exact ND.
+Qed.
